@@ -16,7 +16,16 @@ EXT_TAGS = ["nowiki", "pre", "math", "source", "syntaxhighlight", "timeline", "g
             "rot13", "hiero", "listing"]
 TAGS_OPEN = ["<%s>" % t for t in HTML_TAGS + EXT_TAGS]
 TAGS_CLOSE = ["</%s>" % t for t in HTML_TAGS + EXT_TAGS]
-TAGS_SELF = ["<%s/>" % t for t in ("br", "hr", "references", "ref", "nowiki", "div", "b", "pages")]
+TAGS_SELF = ["<%s/>" % t for t in HTML_TAGS + EXT_TAGS]
+
+# --- attributes: every tag (and the wiki-table syntax positions) x attribute name x value spelling
+ATTR_NAMES = ["class", "style", "id", "name", "colspan", "rowspan", "width", "align", "CLASS", "group"]
+ATTR_VALUES = ["5", '"5"', "'007'", '"a b"', '""', "red", '"display:none"', '"width:5px;height:1e5em"', "-1", "99999999999999999999", "1.5",
+               '"boilerplate metadata"', "5 5", "=", "&amp;"]
+ATTR_HOSTS = ([(t, "<%s %%s>x</%s>" % (t, t)) for t in HTML_TAGS + EXT_TAGS] + [(t + "/", "<%s %%s/>" % t) for t in HTML_TAGS + EXT_TAGS] +
+              [("wikitable", "{| %s\n| x\n|}\n"), ("wikirow", "{|\n|- %s\n| x\n|}\n"), ("wikicell", "{|\n| %s | x\n|}\n"),
+               ("wikiheader", "{|\n! %s | x\n|}\n"), ("wikicaption", "{|\n|+ %s | x\n|-\n| y\n|}\n"),
+               ("nested-div", "<div class=\"outer\"><div %s>x</div></div>\n"), ("li-div", "* <div %s>x</div>\n")])
 TAGS_STYLED = ['<div style="display:inline">', '<span style="display:inline">', '<table style="display:inline">',
                '<ref name=a/>', '<ref name="a">', '<pages from=1 to=2 index=a/>', '<td colspan=2>', '<font color=red>']
 COMMENTS = ["<!--", "-->", "<!-- c -->"]
